@@ -280,12 +280,15 @@ def main():
     # ---- run implementation, monitor -----------------------------------------------------------
     io = run_impl(cases, "all")
     failing = {}          # key -> list of (case index, message)
-    for ci, (c, (o, rc, e)) in enumerate(zip(cases, io)):
+    def case_failures(c, res):
+        o, rc, e = res
         if rc != 0:
             u = len(set(map(tuple, c["pts"])))
-            failing.setdefault(("tree:duplicate-points " if (c["kind"] != "kd" and u < len(c["pts"]) and not o) else "tree:single-leaf " if u == 1 else "crash ") + c["kind"], []).append((ci, "implementation crashed/stopped after %d of %d lines (rc=%s) %s" % (len(o), len(c["body"]) + 1, rc, e.strip()[-200:])))
-            continue
-        for key, msg in monitor_case(c, o):
+            key = ("tree:duplicate-points " if (c["kind"] != "kd" and u < len(c["pts"]) and u > 1 and not o) else "tree:single-leaf " if (u == 1 or len(c["pts"]) <= c["bucket"]) else "crash ") + c["kind"]
+            return [(key, "implementation crashed/stopped after %d of %d lines (rc=%s) %s" % (len(o), len(c["body"]) + 1, rc, e.strip()[-200:]))]
+        return monitor_case(c, o)
+    for ci, (c, res) in enumerate(zip(cases, io)):
+        for key, msg in case_failures(c, res):
             failing.setdefault(key, []).append((ci, msg))
     mon_failed_cases = set(ci for v in failing.values() for ci, _ in v)
 
@@ -316,9 +319,7 @@ def main():
 
     # ---- reporting -----------------------------------------------------------------------------
     def fails_with(c, key):
-        o, rc, e = run_impl([c], "shrink")[0]
-        if rc != 0: return key.startswith("crash") or key.startswith("tree:single-leaf") or key.startswith("tree:duplicate-points")
-        return any(k == key for k, _ in monitor_case(c, o))
+        return any(k == key for k, _ in case_failures(c, run_impl([c], "shrink")[0]))
 
     def shrink(c, key):
         c = dict(c)
@@ -336,8 +337,8 @@ def main():
             ck.violation(key, {}, lst[0][1]); continue
         for ci, msg in lst[:1]:
             small = shrink(cases[ci], key)
-            o, rc, e = run_impl([small], "rep")[0]
-            m = [mm for k, mm in monitor_case(small, o) if k == key] if rc == 0 else [msg]
+            res = run_impl([small], "rep")[0]; o = res[0]
+            m = [mm for k, mm in case_failures(small, res) if k == key]
             lines = case_lines(small)
             cf = ck.write_replay("case_%s_%d.txt" % (re.sub(r"\W+", "_", key), ci), "\n".join(lines) + "\n")
             rp = {"case_file": cf, "case": lines, "implementation_output": o, "monitor": m or [msg], "points": small["pts"],
@@ -354,8 +355,7 @@ def main():
             for ci, why in dis[:5]:
                 c = dict(cases[ci]); t = parse_tree(re.search(r"tree=(\S+)", io[ci][0][0]).group(1))
                 c["body"] = gen_queries(rng, c, t, 300)
-                o, rc, e = run_impl([c], "search")[0]
-                ms = [("crash", "crash")] if rc != 0 else monitor_case(c, o)
+                ms = [(k, m) for k, m in case_failures(c, run_impl([c], "search")[0]) if ck.match_known(k) is None]
                 if ms:
                     small = shrink(c, ms[0][0]); lines = case_lines(small)
                     cf = ck.write_replay("case_search_%d.txt" % ci, "\n".join(lines) + "\n")
